@@ -266,12 +266,90 @@ def check_defb_lines(rep):
             fr.loc['data'] = CountList(n0)
             fr.loc['i'] = p.end - 1
         eng.loop_invariants = {(q, 0): loop}
-        p.ret = eng.call_function(fn, [me, p.start, p.end, ((0, 'n'),), False])
+        # the first sublength is any size: 0 (chunk by DefbSize/DefmSize) or explicit (one statement for the range)
+        sub0 = SV(z3.BitVec('sublength0', W), 0, 65535)
+        p.facts.append(z3.And(sub0.t >= 0, sub0.t <= 65535))
+        holder['sub0'] = sub0
+        p.ret = eng.call_function(fn, [me, p.start, p.end, ((sub0, 'n'),), False])
 
     def post(p, prove):
         prove('post.covers_exactly', cmpop('==', p.cursor, p.end))
     eng = TileEngine(inline_ok=lambda f: False, unknown_ok=True)
     FuncVC(rep, 'C01', fn, 'skoolkit.disassembler.Disassembler._defb_lines', eng).run(start, post, None)
+
+
+# ------------------------------------------------------------------ P: Disassembler.defs_range
+def check_defs_range(rep):
+    """defs_range(start, end, sublengths) under the precondition the chunk loop establishes (the DEFS size is 0 or the
+    length of the range): either the range is handed to defb_range unchanged (bytes differ) or exactly one statement
+    is made, at `start`, carrying the bytes [start, end), whose DEFS size operand is end - start."""
+    from skoolkit.disassembler import Disassembler
+    W = poly.W
+    fn = Disassembler.defs_range
+    for nsub in (1, 2):
+        name = 'skoolkit.disassembler.Disassembler.defs_range[%d sublength%s]' % (nsub, '' if nsub == 1 else 's')
+
+        def start(eng, nsub=nsub):
+            p = eng.path
+            p.start = SV(z3.BitVec('start', W), 0, 65535)
+            p.end = SV(z3.BitVec('end', W), 1, 65536)
+            p.size = SV(z3.BitVec('size', W), 0, 65535)
+            p.facts.extend([p.start.t >= 0, p.start.t < p.end.t, p.end.t <= 65536, p.size.t >= 0, p.size.t <= 65535])
+            eng.assume(or_(cmpop('==', p.size, 0), cmpop('==', p.size, p.end - p.start)))
+            p.made = []
+            p.delegated = []
+            p.sizes_formatted = []
+
+            def imaker(e, args, kwargs, n):
+                p.made.append((args[0], args[2] if len(args) > 2 else None))
+                return ObjModel(None, name='instruction')
+
+            def defb_range(e, args, kwargs, n):
+                p.delegated.append(args)
+                return CountList(e.fresh('n_statements', 1, 65536))
+            fmt_calls = []
+
+            def format_byte(e, args, kwargs, n):
+                fmt_calls.append(args[0])
+                return 'N'
+            p.fmt_calls = fmt_calls
+            fmt = ObjModel(None, name='op_formatter')
+            fmt.attrs['format_byte'] = CallModel(format_byte, 'format_byte')
+            me = ObjModel(None, name='disassembler', cls=Disassembler)
+            me.attrs.update({'snapshot': SnapModel(), 'imaker': CallModel(imaker, 'imaker'), 'defb_range': CallModel(defb_range, 'defb_range'),
+                             'op_formatter': fmt, 'defs': 'DEFS '})
+            sublengths = ((p.size, 'n'),) + (((e_ := eng.fresh('value_element', 0, 65535)), 'c'),) * (nsub - 1)
+            p.ret = eng.call_function(fn, [me, p.start, p.end, sublengths])
+
+        def post(p, prove):
+            if p.delegated:
+                prove('post.delegates_once_and_makes_nothing', len(p.delegated) == 1 and not p.made)
+                a = p.delegated[0]
+                prove('post.delegated_range_is_the_whole_range', cmpop('==', a[0], p.start) if len(a) > 1 else False)
+                prove('post.delegated_range_end', cmpop('==', a[1], p.end) if len(a) > 1 else False)
+                sl = a[2] if len(a) > 2 else None
+                prove('post.delegated_with_default_chunking', isinstance(sl, tuple) and len(sl) == 1 and sl[0][0] == 0)
+                return
+            prove('post.one_statement', len(p.made) == 1)
+            if len(p.made) != 1:
+                return
+            addr, data = p.made[0]
+            prove('post.statement_at_start', cmpop('==', addr, p.start))
+            prove('post.statement_carries_the_range', isinstance(data, Span) and truth(cmpop('==', data.length, p.end - p.start)))
+            prove('post.defs_size_operand_is_the_range_length', bool(p.fmt_calls) and truth(cmpop('==', p.fmt_calls[0], p.end - p.start)))
+
+        class DefsEngine(TileEngine):
+            def sym_builtin(self, f, name_, args, kwargs, node):
+                if name_ == 'set' and len(args) == 1 and isinstance(args[0], Span):
+                    return UNK
+                return super().sym_builtin(f, name_, args, kwargs, node)
+
+            def call(self, f, args, kwargs, node):
+                if f is set and len(args) == 1 and isinstance(args[0], Span):
+                    return UNK
+                return super().call(f, args, kwargs, node)
+        eng = DefsEngine(inline_ok=lambda f: False, unknown_ok=True)
+        FuncVC(rep, 'C01', fn, name, eng).run(start, post, replay_entry_chunks)
 
 
 # ------------------------------------------------------------------ P: the chunk loop of Disassembly._create_entries
@@ -617,6 +695,7 @@ def run(tier):
     decodevc.check_decode(rep, 'C01')
     check_disassemble(rep)
     check_defb_lines(rep)
+    check_defs_range(rep)            # one DEFS statement for the range, its size operand == the range length
     check_entry_chunks(rep)          # Disassembly._create_entries: the chunks handed to the range methods tile every data sub-block
     quick = tier == 'quick'
     n = 160 if quick else 5000
